@@ -22,6 +22,8 @@ type SpecEnv struct {
 	rt       *loopRt
 	recvName string
 	inOld    bool
+	knownName func(string) bool
+	lenient  bool // unresolvable locals in a conclusion turn the clause into "premises are false"
 }
 
 // splitImplies splits a clause on top-level "==>" (right associative).
@@ -69,6 +71,22 @@ func (e *Exec) evalClause(text string, env *SpecEnv) (Term, error) {
 		}
 		v, err := e.evalExpr(x, env)
 		if err != nil {
+			if len(terms) == 0 && len(parts) > 1 && strings.Contains(err.Error(), "unknown identifier") && env.lenient && env.knownName != nil {
+				// a premise names a local of this function that is not in scope at this point: vacuous here
+				name := err.Error()[strings.LastIndex(err.Error(), " ")+1:]
+				if env.knownName(name) {
+					return True, nil
+				}
+			}
+			if len(terms) > 0 && strings.Contains(err.Error(), "unknown identifier") && env.lenient {
+				// the conclusion names a local that does not exist (yet) at this program point:
+				// the clause then requires its premises to be false here
+				out := False
+				for i := len(terms) - 1; i >= 0; i-- {
+					out = Implies(terms[i], out)
+				}
+				return out, nil
+			}
 			return Term{}, fmt.Errorf("%q: %v", p, err)
 		}
 		t, err := e.valTerm(env, v)
@@ -145,6 +163,18 @@ func (e *Exec) evalExpr(x ast.Expr, env *SpecEnv) (v Val, err error) {
 			if v, ok := env.lookup(x.Name); ok {
 				return v, nil
 			}
+		}
+		// ghost world of the CLI effect model
+		if e.world != nil {
+			if r, ok := e.world[x.Name]; ok {
+				if cv, ok := env.st.cell[r]; ok {
+					return cv, nil
+				}
+			}
+		}
+		// package-level variables (current value)
+		if g, ok := e.p.SSA.Members[x.Name].(*ssa.Global); ok {
+			return e.load(env.st, e.globalAddr(env.st, g), token.NoPos), nil
 		}
 		// package-level constants
 		if c, ok := e.p.SSA.Members[x.Name].(*ssa.NamedConst); ok {
@@ -292,6 +322,19 @@ func (e *Exec) evalExpr(x ast.Expr, env *SpecEnv) (v Val, err error) {
 		}
 		return termVal(u.SubSlice(xt, lo, hi)), nil
 	case *ast.SelectorExpr:
+		if pid, ok := x.X.(*ast.Ident); ok {
+			// package-qualified variable of an imported package, e.g. jd.SET
+			if _, isLocal := env.vars[pid.Name]; !isLocal {
+				wantPath := e.p.importPath(pid.Name)
+				for _, pk := range e.p.Prog.AllPackages() {
+					if ((wantPath != "" && pk.Pkg.Path() == wantPath) || (wantPath == "" && pk.Pkg.Name() == pid.Name)) && pk != e.p.SSA {
+						if g, ok := pk.Members[x.Sel.Name].(*ssa.Global); ok {
+							return e.load(env.st, e.globalAddr(env.st, g), token.NoPos), nil
+						}
+					}
+				}
+			}
+		}
 		xt, err := tm(x.X)
 		if err != nil {
 			return Val{}, err
@@ -417,6 +460,27 @@ func (e *Exec) specCall(st *State, fn *ssa.Function, args []Term) (Term, error) 
 			if args[i].Sort == SInt && ps == SReal {
 				args[i] = ToReal(args[i])
 				continue
+			}
+			if ps == SOpt || ps == SNode || ps == SPE {
+				// implicit conversion of a concrete value to the interface (as Go does at a call)
+				name := string(args[i].Sort)
+				if j := strings.LastIndex(name, "_"); j >= 0 {
+					name = name[j+1:]
+				}
+				var t Term
+				ok := false
+				switch ps {
+				case SOpt:
+					t, ok = e.optOf(st, termVal(args[i]), name)
+				case SNode:
+					t, ok = e.nodeOf(st, termVal(args[i]), name)
+				case SPE:
+					t, ok = e.pathElemOf(st, termVal(args[i]), name)
+				}
+				if ok {
+					args[i] = t
+					continue
+				}
 			}
 			return Term{}, fmt.Errorf("%s: argument %d has sort %s, parameter %s has sort %s", key, i, args[i].Sort, p.Name(), ps)
 		}
